@@ -9,21 +9,25 @@ props = [json.loads(l) for l in open(os.path.join(HERE, "properties.jsonl"))]
 # pid -> (technique, level text, level note, design ref)
 CLAIMED = {
     "C14": ("MIR dominator/path-condition analysis of #[target_feature] call sites with crate-wide who-may-write "
-            "inference of feature flags and tier enums (R-TF)",
+            "inference of feature flags and tier enums (R-TF); who-may-call rule on signed 8-bit lane comparisons in compare "
+            "kernels with bias-idiom recognition (R-SIGNED)",
             "static rule over all MIR bodies: decides the dispatch-soundness clause (kernels entered only under an "
             "implying runtime feature check; portable fallback exists) for every call site in the crate; it does not "
-            "decide that kernels compute the scalar function",
-            "one clause of C14 only; trusted: rustc MIR, extractor, x86 implication tables, crate-internal writers of "
+            "decide that kernels compute the scalar function; plus: no cmp/compare kernel orders bytes with an unbiased "
+            "signed lane comparison",
+            "two structural clauses of C14; trusted: rustc MIR, extractor, x86 implication tables, crate-internal writers of "
             "pub flag fields (external code constructing flag structs by hand is out of scope)",
             "DESIGN.md section 4 C14, section 3 R-TF"),
 }
 CLAIMED["C18"] = (
-    "compile-fail witness (E0382) + MIR producer/consumer coverage of task queues (R-QUEUE) + dead-error analysis "
-    "of Result matches (R-ERRDEAD)",
+    "compile-fail witness (E0382) + MIR producer/consumer coverage of task queues (R-QUEUE) + must-move path analysis of "
+    "popped Box<dyn Task> values (R-LINEAR.task) + examined-Result rule for refusing task sinks (R-SINK) + who-may-call "
+    "rule on completion-ordered combinators in sequence-returning APIs (R-SEQ) + dead-error analysis of Result matches (R-ERRDEAD)",
     "static rules over MIR and a type-level witness: decide that executing a task consumes it, that every queue the "
-    "owner can fill is drained on the owner's own path (single-worker liveness), and that no stage/item error is "
-    "swallowed in pipeline.rs/fiber_pool.rs",
-    "three structural clauses of C18; exactly-once under stealing interleavings, idle detection and result ordering "
+    "owner can fill is drained on the owner's own path (single-worker liveness), that a task taken out of a queue is "
+    "run/returned/re-queued on every path, that a refused task is noticed, that Vec-returning APIs do not collect in "
+    "completion order, and that no stage/item error is swallowed in pipeline.rs/fiber_pool.rs",
+    "six structural clauses of C18; exactly-once under stealing interleavings, idle detection and result "
     "values are not decided; trusted: rustc type checker + MIR, extractor, rule tables",
     "DESIGN.md section 4 C18")
 CLAIMED["C16"] = (
@@ -37,32 +41,37 @@ CLAIMED["C16"] = (
     "DESIGN.md section 4 C16")
 CLAIMED["C05"] = (
     "MIR variant-routing coverage (R-VARIANT): arms of every switch on the storage enum, key consumption by back ends, "
-    "stem agreement; strategy->storage mapping; who-may-write on num_keys",
+    "stem agreement; strategy->storage mapping; who-may-write on num_keys; loop-exit analysis of the Patricia pruning loop (R-PRUNE)",
     "static rule over MIR: for every trie operation named by the property and every TrieStorage variant, the arm must read "
     "the variant's storage or use the key, the back end must read the key and belong to the same strategy family",
-    "one clause of C05 (per-strategy routing, no stub strategy); value-level trie algorithms are not decided; unimplemented "
+    "two clauses of C05 (per-strategy routing, no stub strategy; removal's unlink loop stops at final nodes); value-level trie algorithms are not decided; unimplemented "
     "strategies present in the tree are listed as known findings with failing demonstrations",
     "DESIGN.md section 4 C05, section 3 R-VARIANT")
 CLAIMED["C06"] = (
     "MIR must-pass-through-sanitiser analysis for the in-band occupancy marker (R-TAINT-S, sentinels and sanitiser inferred "
-    "structurally) + variant-routing coverage (R-VARIANT)",
+    "structurally, incl. enumerators) + probe-past-tombstone path rule (R-PROBE) + sibling agreement of hash-to-slot reduction "
+    "(R-SIBLING.index) + parallel-vector reshape agreement (R-PARALLEL) + variant-routing coverage (R-VARIANT)",
     "static rules over MIR: a hash from Hasher::finish cannot reach a store into / comparison with HashEntry.hash without "
     "passing a function that tests every sentinel; every map operation x HashMapStorage variant reaches a back end that "
     "reads the key",
-    "two clauses of C06; probe sequences, tombstone reuse, resize and iteration are value-level and not decided",
+    "five structural clauses of C06 (sentinel sanitisation; insertion never settles on a deleted slot before the probe path is "
+    "exhausted; all hash-to-slot reductions agree; entries/hash_cache reshaped alike; per-strategy routing); probe-sequence values, "
+    "resize contents and iteration order are value-level and not decided",
     "DESIGN.md section 4 C06, section 3 R-TAINT-S / R-VARIANT")
 CLAIMED["C15"] = (
     "interprocedural MIR taint analysis (untrusted buffers / integers with source sites, flow-sensitive reaching "
-    "definitions, callee summaries, type-based struct-field registry) with dominating-guard discharge: R-ALLOC, R-GUARD, R-PANIC",
+    "definitions, callee summaries, type-based struct-field registry) with dominating-guard discharge: R-ALLOC, R-GUARD, R-PANIC, "
+    "R-DIV (zero-test before an untrusted divisor), R-ARITH.mul (unchecked multiplication feeding a bound check, through helpers); "
+    "CFG cut rule for variable-length integer decoders (R-TRUNC)",
     "static rule over the closure of ~200 parser entry points: every allocation size, bounds-checked index, slice range, "
     "unsafe pointer/length operand and unwrap that derives from untrusted bytes must be dominated by a deciding comparison "
     "against a trusted bound (refusing on the large side), clamped by a trusted value, or narrow by type",
-    "four structural clauses of C15; guard shape is checked, guard arithmetic is not; loop termination and bomb "
+    "seven structural clauses of C15; guard shape is checked, guard arithmetic is not; loop termination and bomb "
     "amplification are not decided; container contents are tracked only through insert/push of scalars and named struct fields",
     "DESIGN.md section 4 C15, section 3 R-GUARD/R-ALLOC")
 CLAIMED["C19"] = (
     "MIR must-precede / must-pass-through analysis over resolved callees (R-ORDER), open-time size-guard rule (R-GUARD.open) "
-    "and the taint analysis with header fields as untrusted integers",
+    "and the taint analysis with header fields as untrusted integers (incl. R-ARITH.mul); CFG cut rule for var_uint readers (R-TRUNC)",
     "static rules: growth persists capacity only after File::set_len and remap; writers sync before returning Ok; "
     "MmapVec::open compares the header's capacity with the file length before Ok; loaders never size or index from header "
     "fields unchecked",
@@ -70,7 +79,8 @@ CLAIMED["C19"] = (
     "(function, event A, event B) table is frozen in props/C19.py",
     "DESIGN.md section 4 C19, section 3 R-ORDER")
 CLAIMED["C13"] = (
-    "MIR layout-event agreement between writers and readers (R-PAIR, strong projection) and inverse dispatch tables (R-VARIANT.inverse)",
+    "MIR layout-event agreement between writers and readers (R-PAIR, strong projection), per-marker arm agreement for constant "
+    "one-byte presence/kind markers (R-PAIR.marker) and inverse dispatch tables (R-VARIANT.inverse)",
     "static rules over MIR: every DataOutput::write_K x DataInput::read_K implementor pair and every serialize/deserialize "
     "pair of the io files must produce the same sequence of multi-byte integer widths+endianness, primitive kinds and nested "
     "(de)serialisations; each VarIntStrategy variant must decode with the helper family it encodes with",
@@ -110,7 +120,7 @@ CLAIMED["C03"] = (
 CLAIMED["C08"] = (
     "MIR analysis of compare-exchange pops on intrusive free lists (R-ABA: version tag or live lock), tag advance on push, atomic check-then-act (R-ATOM)",
     "static rule over MIR: every CAS whose new value is read through the loaded head must carry a +1 version tag derived from the "
-    "loaded word or run under a live lock guard; tagged lists advance the tag on every CAS",
+    "loaded word (directly or in a crate-local helper) or run under a live lock guard; tagged lists advance the tag on every CAS",
     "one structural clause of C08 (free structures stay well formed under pre-emption between head load and CAS); linearizability, "
     "exactly-once hand-over and counter totals need schedule enumeration and are not decided",
     "DESIGN.md section 4 C08, section 3 R-ABA")
